@@ -24,7 +24,7 @@ func (in *Interp) external(fn *ssa.Function) extFn {
 	if o := fn.Origin(); o != nil {
 		name = o.String()
 	}
-	if e, ok := externals[name]; ok {
+	if e, ok := externals[name]; ok && !in.NoModel[name] {
 		return func(in *Interp, fn *ssa.Function, args []Value) Value {
 			in.Stubs[name]++
 			return e(in, fn, args)
